@@ -24,6 +24,22 @@ CLAIMS = {
          "legitimate broker outside hostile windows; malformed acks are generated as targeted hostile replies", SIM),
  "C17": ("exploration", "5 C17", "Strict independent MQTT 5 decoder applied to every byte the client writes in every run; PUBLISH/SUBSCRIBE/UNSUBSCRIBE/CONNECT/DISCONNECT fields compared with the supplied arguments. The input space is sampled (boundary-biased), not enumerated.",
          "reference codec written from the specification", SIM),
+ "C04": ("exploration", "5 C04", "Broker model acts as QoS 0/1/2 sender with MQTT retransmission on session resumption. Wire: ack type per QoS, no stray acks, PUBCOMP only after a delivered PUBREL. Application: content equality, QoS 2 at most once always and exactly once by the end of the healed suffix, QoS 1 at least once, per-QoS order of first deliveries. Six known-finding classes (inbound exchanges interrupted by a connection loss) are reported as KNOWN-FINDING; every other class is a VIOLATION.",
+         "lower bounds only for messages not in flight when the broker dropped the session and only when the receive channel of the running client could be drained at the end", SIM + "; bounded liveness"),
+ "C09": ("exploration", "5 C09", "async_disconnect at seeded instants: completion within 5 s of initiation (+ injected stall), every post-handshake write begun after initiation carries exactly the DISCONNECT with the given reason code/properties (properties dropped iff larger than Maximum Packet Size) and nothing follows it on that connection, no write and no connection attempt after completion until async_run.",
+         "attribution of network activity to a service object is skipped while two service generations are active", SIM),
+ "C10": ("exploration", "5 C10", "First packet of every connection decodes strictly to the configured CONNECT (exactly one), nothing but AUTH is written before a successful CONNACK was delivered, a silent handshake is abandoned at exactly 5 s, the broker list is visited cyclically with further endpoints of a host first, no pause inside a pass, back-off 0.5-16.5 s (and 2^min(k,4) s +- 0.5 s for the k-th wrap) only at wrap-around.",
+         "timing is judged only where no stall, no 5 s race and a single service generation make it definite", SIM + "; exact virtual-time comparisons"),
+ "C12": ("exploration", "5 C12", "Every post-handshake read lives at most 1.5*K and is abandoned exactly then (never earlier; later only by injected stall); with K = 0 no read is abandoned and no PINGREQ is sent; on fault-free connections a PINGREQ is handed to the transport within K (+ 1 s slack + stall) of the CONNACK / the previous PINGREQ's write completion.",
+         "K = Server Keep Alive of the connection's CONNACK, else the configured value", SIM + "; exact virtual-time comparisons"),
+ "C13": ("exploration", "5 C13", "Per service generation: number of session_expired errors out of async_receive equals the number of successful CONNACKs with Session Present 0 that followed a successful subscribe (upper bound always, equality when the channel could be drained), and no message of the new session is delivered before the report.",
+         "cancel()/async_disconnect/re-run start a new client life (the service forgets earlier subscriptions); ambiguous attributions make a generation indefinite", SIM),
+ "C15": ("exploration", "5 C15", "Requests on the boundaries of the capabilities in the CONNACK held at initiation: a forbidden request completes at the same virtual instant with a documented error and nothing of it reaches the wire; an allowed request (e.g. size == limit) is never rejected with a capability error; every received packet respects the capabilities of its connection when its request was initiated under an identical capability set.",
+         "boundary sizes computed with the independent reference encoder", SIM),
+ "C18": ("exploration", "5 C18", "Reference-encoded broker packets (short forms, property mixes, repeated user properties, several subscription identifiers) under arbitrary chunking: CONNACK as reported by the logger and connack_properties(), async_receive results (C04), handler arguments (C01/C14), server DISCONNECT as logged, authenticator inputs equal what was encoded; a well-formed packet is never answered with DISCONNECT 0x81/0x82. The re-encode clause is a pure codec round trip and is not decided by this technique.",
+         "scope: decode + surfacing through the API; not the encode-again clause", SIM),
+ "C19": ("exploration", "5 C19", "Hostile broker (18 mutation kinds + random bytes, handshake and established phase, small client receive buffers) with the whole client under ASan/UBSan: no sanitizer report, abort or uncaught exception (worker death is attributed to the announced seed and replayed), no livelock at one virtual instant, a successful completion needs a well-formed acknowledgement in the byte stream as framed by the reference decoder, recovery after Heal (C02 liveness also runs in this profile).",
+         "the chunking-independence differential is not part of the quick sweep", SIM + "; sanitizers"),
  "C20": ("fault_enumeration", "5 C20", "Complete enumeration of 9 categories x 256 bytes through to_reason_code against tables written from MQTT 5, in a TU built with -fno-weak so the tables are ASan-guarded (out-of-table reads are reported).",
          "the sanitizer-instrumentation workaround is a complete enumeration of a finite domain, not simulation; stated as such", "complete enumeration (2304 cases) with ASan-guarded tables"),
 }
